@@ -29,7 +29,7 @@ func checkC14(c *Ctx, r *Report) {
 	r.rule("C14.R5.label-scan", 1, "NextLabel's (and PrevLabel's) backward scan over the backslashes before a dot can reach index 0")
 	backslashScanReachesZero(c, r, "C14.R5.label-scan", []string{"NextLabel", "PrevLabel"}, "the multiplexer, which walks the question name with NextLabel, never looks up the suffix behind that dot: a query whose first label is a backslash is REFUSED although a handler for its parent zone is registered")
 	borrow(c, r, c02BoundsRun, "C02.R5.bounds", "C14.R2.decode-bounds", 80, "every buffer access of the decoders the server runs on inbound messages is entailed in bounds", nil, "a crafted datagram makes the serving goroutine panic instead of the message being reported to the invalid-message callback")
-	borrow(c, r, c12R4, "C12.R4.pool-put-size", "C14.R1.pool-put-size", 4, "every buffer returned to the UDP pool is re-sliced to srv.UDPSize", nil, "a later, larger datagram read into the short buffer is cut and never reaches the handler, although it passes the accept policy and would decode")
+	borrow(c, r, c12R4, "C12.R4.pool-put-size", "C14.R1.pool-put-size", 2, "every buffer returned to the UDP pool is re-sliced to srv.UDPSize", nil, "a later, larger datagram read into the short buffer is cut and never reaches the handler, although it passes the accept policy and would decode")
 	poolGetSize(c, r, "C14.R1.pool-get-size", "after a restart with a larger UDPSize the pool still hands out the old, shorter buffers: datagrams that fit the configured size are cut, fail to decode and never reach the handler")
 	muxAnyQuestion(c, r, "C14.R5.any-question")
 	defaultsSameField(c, r, "C14.R3.defaults-same-field")
